@@ -191,7 +191,7 @@ PROPS = {
         "assumptions": ["labels are compared as sets (Go maps)"],
     },
     "C12": {
-        "prop_files": ["Katib/Props/C12.lean"],
+        "prop_files": ["Katib/Props/C12.lean", 'Katib/Props/C12Guards.lean'],
         "n": {"quick": 4000, "thorough": 200000},
         "rule": "pods (1-3 containers named main/helper/istio-proxy/training incl. duplicates, explicit commands python/sh/bash/`sh -c`/`bash -c`/`sh -x`/binary, args, env, mounts, "
                 "volumes, labels incl. a stale trial label) x Trials (seven collector kinds incl. Custom with a collector named like the primary container and Push; primaryPodLabels "
